@@ -61,9 +61,10 @@ def _scan_case(case):
     tree, root, mp, k = case["tree"], case["root"], case["mp"], case["k"]
     with sc.write_project(tree) as proj:
         base = proj.path(root)
-        full = sc.real_scan(proj, root, mp)
-        flat = sc.real_scan(proj, root, mp, level_limit=k)
-        line = sc.scan_line("scan", base, tree, root, mp, lim=k)
+        xx = case.get("xx", True)
+        full = sc.real_scan(proj, root, mp, exclude_external_libraries=xx)
+        flat = sc.real_scan(proj, root, mp, level_limit=k, exclude_external_libraries=xx)
+        line = sc.scan_line("scan", base, tree, root, mp, lim=k, exclude_external=xx)
     return full, flat, line
 
 
@@ -174,10 +175,13 @@ def run(ctx: Ctx):
     cases = []
     for _ in range(ctx.size(400, 8000)):
         tree = sc.gen_tree(rng, max_depth=5)
-        sc.fill_sources(rng, tree, externals=False)
+        # a third of the scans include external libraries (also ones nested deeper than the limit): they are flattened
+        # like every other module name
+        xx = rng.random() < 0.65
+        sc.fill_sources(rng, tree, externals=not xx)
         dirs = sorted(p for p, v in tree.items() if v is None)
         mp = rng.choice(dirs) if rng.random() < 0.6 else "proj"
-        cases.append({"tree": tree, "root": "proj", "mp": mp, "k": rng.randint(0, 3)})
+        cases.append({"tree": tree, "root": "proj", "mp": mp, "k": rng.randint(0, 3), "xx": xx})
     judge_scans(ctx, s, cases)
     s.finish()
     for name, comps in (("verdicts above the limit: plain", gen.PLAIN), ("verdicts above the limit: adversarial", gen.IDENT_ADVERSARIAL)):
